@@ -52,6 +52,8 @@ type C6Stage struct {
 	OA    int64  `json:"oa"`
 	OB    int64  `json:"ob"`
 	Cost2 string `json:"cost2"`
+	// cross/merge/concat: lazy stages applied to numbers(OLen)[.number(..)] - the other operand is a PIPELINE
+	Sub []C6Stage `json:"sub,omitempty"`
 }
 
 type C6Case struct {
@@ -64,7 +66,8 @@ type C6Case struct {
 }
 
 var c6StageKinds = []string{"map", "accept", "combine", "combine3", "combineN", "iir", "iirCombine", "number", "compact", "cross", "merge", "top", "skip", "fsm", "concat"}
-var c6TermKinds = []string{"reduce", "mapReduce", "sum", "size", "string", "first", "last", "minMax", "visit", "order", "orderRev", "groupByInt", "groupByString", "groupByEqual", "multiUse"}
+var c6SelfKinds = []string{"crossSelf", "mergeSelf", "concatSelf"} // let m = <pipeline so far>; m.cross(m,..) | m.merge(m,..) | (m+m)
+var c6TermKinds = []string{"twice", "reduce", "mapReduce", "sum", "size", "string", "first", "last", "minMax", "visit", "order", "orderRev", "groupByInt", "groupByString", "groupByEqual", "multiUse"}
 
 func c6Coq(kind string) string {
 	return strings.ToUpper(kind[:1]) + kind[1:]
@@ -79,10 +82,23 @@ func lin3s(a, b int64, p, q, r string) string {
 }
 
 func (s C6Stage) other() string {
+	t := fmt.Sprintf("numbers(%d)", s.OLen)
 	if s.ONum {
-		return fmt.Sprintf("numbers(%d).number((i,e)->h(%d,%s))", s.OLen, s.ID2, lin2s(s.OA, s.OB, "i", "e"))
+		t = fmt.Sprintf("numbers(%d).number((i,e)->h(%d,%s))", s.OLen, s.ID2, lin2s(s.OA, s.OB, "i", "e"))
 	}
-	return fmt.Sprintf("numbers(%d)", s.OLen)
+	for _, u := range s.Sub {
+		t = u.render(t)
+	}
+	return t
+}
+
+// every stage of the case including the stages of the other operands' pipelines
+func c6Walk(stages []C6Stage, f func(s *C6Stage, depth int)) { c6walk(stages, 0, f) }
+func c6walk(stages []C6Stage, d int, f func(s *C6Stage, depth int)) {
+	for i := range stages {
+		f(&stages[i], d)
+		c6walk(stages[i].Sub, d+1, f)
+	}
 }
 
 func (s C6Stage) render(prev string) string {
@@ -118,6 +134,14 @@ func (s C6Stage) render(prev string) string {
 		return prev + fmt.Sprintf(".fsm((s,i)->goto(%s)).map(s->h(%d,s.state))", h(fmt.Sprintf("(%d*s.state+i+%d)%%7", s.A, s.B)), s.ID2)
 	case "concat":
 		return "(" + prev + "+" + s.other() + ")"
+	case "crossSelf": // prev is the let-bound name
+		return prev + ".cross(" + prev + ",(p,q)->" + h(lin2s(s.A, s.B, "p", "q")) + ")"
+	case "mergeSelf":
+		return prev + ".merge(" + prev + ",(p,q)->" + h("p") + "<q)"
+	case "concatSelf":
+		return "(" + prev + "+" + prev + ")"
+	case "twice": // prev is the let-bound name: three traversals of the same lazy list value
+		return fmt.Sprintf("[%s.sum(),%s.mapReduce(%d,(s,v)->%s),%s.size()]", prev, prev, s.K, h(lin2s(s.A, s.B, "s", "v")), prev)
 	// terminals
 	case "reduce":
 		return prev + ".reduce((s,v)->" + h(lin2s(s.A, s.B, "s", "v")) + ")"
@@ -142,17 +166,31 @@ func (s C6Stage) render(prev string) string {
 	panic("unknown stage kind " + s.Kind)
 }
 
+func c6IsSelf(kind string) bool {
+	return kind == "crossSelf" || kind == "mergeSelf" || kind == "concatSelf" || kind == "twice"
+}
+
 func (c *C6Case) Text() string {
+	lets := ""
 	t := fmt.Sprintf("numbers(%d)", c.N)
-	for _, s := range c.Stages {
+	step := func(i int, s C6Stage) {
+		if c6IsSelf(s.Kind) {
+			name := fmt.Sprintf("m%d", i)
+			lets += "let " + name + "=" + t + ";"
+			t = name
+		}
 		t = s.render(t)
 	}
-	return c.Term.render(t)
+	for i, s := range c.Stages {
+		step(i, s)
+	}
+	step(len(c.Stages), c.Term)
+	return lets + t
 }
 
 func c6Calls(kind string, s C6Stage) bool { // does the stage call a closure on the stack it was handed?
 	switch kind {
-	case "map", "accept", "top", "skip", "sum", "size", "string", "first", "last", "multiUse":
+	case "map", "accept", "top", "skip", "sum", "size", "string", "first", "last", "multiUse", "concatSelf":
 		return false
 	case "concat":
 		return s.ONum
@@ -188,6 +226,9 @@ func (s C6Stage) otherRef() []int64 {
 		for i := range o {
 			o[i] = l2(s.OA, s.OB, int64(i), o[i])
 		}
+	}
+	for _, u := range s.Sub {
+		o = u.ref(o)
 	}
 	return o
 }
@@ -250,15 +291,21 @@ func (s C6Stage) ref(l []int64) []int64 {
 				out = append(out, v)
 			}
 		}
-	case "cross":
-		o := s.otherRef()
+	case "cross", "crossSelf":
+		o := l
+		if s.Kind == "cross" {
+			o = s.otherRef()
+		}
 		for _, x := range l {
 			for _, y := range o {
 				out = append(out, h(l2(s.A, s.B, x, y)))
 			}
 		}
-	case "merge":
-		o := s.otherRef()
+	case "merge", "mergeSelf":
+		o := l
+		if s.Kind == "merge" {
+			o = s.otherRef()
+		}
 		i, j := 0, 0
 		for i < len(l) && j < len(o) {
 			if h(l[i]) < o[j] {
@@ -291,6 +338,8 @@ func (s C6Stage) ref(l []int64) []int64 {
 		}
 	case "concat":
 		out = append(append(out, l...), s.otherRef()...)
+	case "concatSelf":
+		out = append(append(out, l...), l...)
 	default:
 		panic("ref: unknown stage " + s.Kind)
 	}
@@ -313,6 +362,15 @@ func (s C6Stage) refTerm(l []int64) []int64 {
 		return []int64{fold(l[0], l[1:])}
 	case "mapReduce", "visit":
 		return []int64{fold(s.K, l)}
+	case "twice":
+		if len(l) == 0 {
+			panic(c6fail{})
+		}
+		sum := int64(0)
+		for _, v := range l {
+			sum += v
+		}
+		return []int64{sum, fold(s.K, l), int64(len(l))}
 	case "sum":
 		if len(l) == 0 {
 			panic(c6fail{})
@@ -441,9 +499,17 @@ func c06CoqObs(obs []int64, ok bool) string {
 }
 
 func (c *C6Case) coq(id int, ncpu int, switched map[int]bool, obs []int64, ok bool) string {
+	var one func(s C6Stage) string
+	one = func(s C6Stage) string {
+		var sub []string
+		for _, u := range s.Sub {
+			sub = append(sub, one(u))
+		}
+		return fmt.Sprintf("(PS K%s %s %s)", c6Coq(s.Kind), s.coqSP(switched[s.ID], c.Seed+int64(s.ID)), CoqList(sub))
+	}
 	var st []string
-	for i, s := range c.Stages {
-		st = append(st, fmt.Sprintf("(K%s, %s)", c6Coq(s.Kind), s.coqSP(switched[s.ID], c.Seed+int64(i))))
+	for _, s := range c.Stages {
+		st = append(st, one(s))
 	}
 	return fmt.Sprintf("(%d%%N, (%d%%N, %s, %s, T%s, %s), %s)", id, ncpu, c06CoqZ(c.N), CoqList(st), c6Coq(c.Term.Kind), c.Term.coqSP(false, 0), c06CoqObs(obs, ok))
 }
@@ -458,7 +524,7 @@ type c6HostStage struct {
 	gids  map[int64]bool
 }
 
-type c6Host struct{ st [64]*c6HostStage }
+type c6Host struct{ st [256]*c6HostStage }
 
 var c6host atomic.Pointer[c6Host]
 
@@ -483,7 +549,7 @@ func c6HostFunc(st funcGen.Stack[value.Value], cs []value.Value) (value.Value, e
 	if !ok1 || !ok2 {
 		return nil, fmt.Errorf("h: int arguments required, got %v %v", st.Get(0), st.Get(1))
 	}
-	if id < 0 || int(id) >= 64 || c6host.Load().st[int(id)] == nil {
+	if id < 0 || int(id) >= 256 || c6host.Load().st[int(id)] == nil {
 		// only reachable when the arguments were corrupted (the stack slots were overwritten by another goroutine)
 		return nil, fmt.Errorf("h: unknown stage id %d", id)
 	}
@@ -635,10 +701,10 @@ func c6Eval(fg *value.FunctionGenerator, c *C6Case) C6Result {
 			host.st[id] = &c6HostStage{cost: cost, fail: fail, gids: map[int64]bool{}}
 		}
 	}
-	for _, s := range append(append([]C6Stage{}, c.Stages...), c.Term) {
+	c6Walk(append(append([]C6Stage{}, c.Stages...), c.Term), func(s *C6Stage, _ int) {
 		reg(s.ID, s.Cost, s.Fail)
 		reg(s.ID2, s.Cost2, -1)
-	}
+	})
 	c6host.Store(host)
 	res := C6Result{ID: c.ID, NCPU: runtime.NumCPU(), Procs: runtime.GOMAXPROCS(0), Gids: map[int]int{}}
 	t0 := time.Now()
@@ -725,7 +791,31 @@ func (r *Rng) c6Cost(par bool) string {
 	return "none"
 }
 
-func (r *Rng) c6Stage(kind string, id *int) C6Stage {
+// c6Sub: the other operand of a binary stage as a lazy pipeline of 1..3 stages (depth: how deep binary stages may nest)
+func (r *Rng) c6Sub(s *C6Stage, id *int, depth int, maxLen int) {
+	if depth <= 0 || !r.Chance(0.7) {
+		return
+	}
+	kinds := []string{"merge", "merge", "cross", "map", "accept", "number", "iir", "iirCombine", "combine", "combine3", "combineN", "compact", "concat", "top", "skip", "fsm"}
+	n := 1 + r.Pick(3)
+	for i := 0; i < n; i++ {
+		k := kinds[r.Pick(len(kinds))]
+		u := r.c6StageD(k, id, depth-1)
+		if u.Cost == "all" || u.Cost == "late" {
+			u.Cost = "front" // the operand of a cross is traversed once per row
+		}
+		s.Sub = append(s.Sub, u)
+	}
+	if n := len(s.otherRef()); n > maxLen { // an early-stopping consumer on top of the operand pipeline
+		u := r.c6StageD("top", id, 0)
+		u.K = int64(1 + r.Pick(maxLen))
+		s.Sub = append(s.Sub, u)
+	}
+}
+
+func (r *Rng) c6Stage(kind string, id *int) C6Stage { return r.c6StageD(kind, id, 2) }
+
+func (r *Rng) c6StageD(kind string, id *int, depth int) C6Stage {
 	*id += 2
 	s := C6Stage{Kind: kind, ID: *id, ID2: *id + 1, A: int64(1 + r.Pick(9)), B: int64(r.Pick(50)), A2: int64(1 + r.Pick(9)), B2: int64(r.Pick(50)),
 		Fail: -1, Cost: "none", Cost2: "none"}
@@ -745,18 +835,27 @@ func (r *Rng) c6Stage(kind string, id *int) C6Stage {
 	case "cross":
 		s.OLen = int64(r.Pick(4))
 		s.ONum = r.Chance(0.6)
+		if depth > 0 && r.Chance(0.7) {
+			s.OLen = int64(r.Pick(9))
+		}
 	case "merge":
 		s.OLen = int64(r.Pick(60))
 		s.ONum = r.Chance(0.7)
 	case "concat":
 		s.OLen = int64(r.Pick(30))
 		s.ONum = r.Chance(0.6)
-	case "mapReduce", "visit":
+	case "mapReduce", "visit", "twice":
 		s.K = int64(r.Pick(100))
 	case "groupByInt", "groupByString", "groupByEqual":
 		s.K = int64(2 + r.Pick(5))
 	}
 	s.OA, s.OB = int64(1+r.Pick(5)), int64(r.Pick(20))
+	switch kind {
+	case "cross":
+		r.c6Sub(&s, id, depth, 6)
+	case "merge", "concat":
+		r.c6Sub(&s, id, depth, 120)
+	}
 	return s
 }
 
@@ -779,27 +878,27 @@ func (r *Rng) c6Gen(id int, big bool) *C6Case {
 	ns := 1 + r.Pick(6)
 	hid := 0
 	callers := []string{"combine", "combine3", "combineN", "iir", "iirCombine", "number", "compact", "fsm", "merge", "cross"}
-	est := c.N
+	cur := c6Numbers(c.N) // the reference elements so far (no stage fails yet): keeps cross products small
 	for i := 0; i < ns; i++ {
 		var kind string
-		switch x := r.Pick(10); {
-		case x < 3:
+		switch x := r.Pick(20); {
+		case x < 6:
 			kind = []string{"map", "accept"}[r.Pick(2)]
-		case x < 7:
+		case x < 13:
 			kind = callers[r.Pick(len(callers))]
+		case x < 15:
+			kind = c6SelfKinds[r.Pick(len(c6SelfKinds))]
 		default:
 			kind = c6StageKinds[r.Pick(len(c6StageKinds))]
 		}
-		if kind == "cross" && est > 700 {
+		if (kind == "cross" && len(cur) > 500) || (kind == "crossSelf" && len(cur) > 40) || (c6IsSelf(kind) && len(cur) > 1500) {
 			kind = "number"
 		}
 		s := r.c6Stage(kind, &hid)
-		if kind == "cross" {
-			est *= s.OLen
-		}
 		if big && s.Cost == "all" {
 			s.Cost = "front"
 		}
+		cur = s.ref(cur)
 		c.Stages = append(c.Stages, s)
 	}
 	tk := c6TermKinds[r.Pick(len(c6TermKinds))]
@@ -819,7 +918,7 @@ func (r *Rng) c6Gen(id int, big bool) *C6Case {
 		cand := []*C6Stage{}
 		for i := range c.Stages {
 			switch c.Stages[i].Kind {
-			case "top", "skip", "concat":
+			case "top", "skip", "concat", "concatSelf":
 			default:
 				cand = append(cand, &c.Stages[i])
 			}
@@ -880,6 +979,16 @@ func c6Corpus() []*C6Case {
 		mk(200, C6Stage{Kind: "minMax", A: 1, B: 0}, C6Stage{Kind: "cross", A: 1, B: 0, OLen: 2, ONum: true, OA: 1, OB: 1}, front, C6Stage{Kind: "compact", K: 3}),
 		mk(120, C6Stage{Kind: "multiUse", A: 1, B: 0, A2: 1, B2: 1}, num, front),
 		mk(0, C6Stage{Kind: "size"}, front),
+		// a lazy pipeline as the SECOND list of a cross is traversed once per row: a merge, and stages on top of a merge
+		mk(3, C6Stage{Kind: "string"}, C6Stage{Kind: "cross", A: 1000 % 1009, B: 0, OLen: 2, Sub: []C6Stage{{Kind: "merge", ID: 90, ID2: 91, Fail: -1, Cost: "none", Cost2: "none", OLen: 2}}}),
+		mk(20, C6Stage{Kind: "size"}, num, C6Stage{Kind: "cross", A: 3, B: 1, OLen: 30, ONum: true, OA: 2, OB: 1, Sub: []C6Stage{
+			{Kind: "merge", ID: 90, ID2: 91, Fail: -1, Cost: "none", Cost2: "none", OLen: 30, ONum: true, OA: 1, OB: 3},
+			{Kind: "map", ID: 92, ID2: 93, A: 2, B: 1, Fail: -1, Cost: "front", Cost2: "none"},
+			{Kind: "top", ID: 94, ID2: 95, K: 25, Fail: -1, Cost: "none", Cost2: "none"}}}),
+		// the same lazy list value used more than once
+		mk(200, C6Stage{Kind: "twice", A: 2, B: 1, K: 3}, num, front, C6Stage{Kind: "merge", OLen: 40, ONum: true, OA: 2, OB: 1}),
+		mk(30, red, num, front, C6Stage{Kind: "crossSelf", A: 2, B: 1}),
+		mk(150, C6Stage{Kind: "visit", A: 1, B: 2, K: 4}, num, front, C6Stage{Kind: "mergeSelf"}),
 		mk(13, C6Stage{Kind: "string"}, num, front, num),
 	}
 }
@@ -1082,6 +1191,18 @@ func c6Signature(c *C6Case, switched map[int]bool, symptom string) string {
 			return fmt.Sprintf("up=%s/par=%s/down=%s/%s", up, s.Kind, down, symptom)
 		}
 	}
+	for _, s := range c.Stages { // a lazy pipeline that is traversed more than once
+		if s.Kind == "cross" && len(s.Sub) > 0 {
+			ks := []string{}
+			for _, u := range s.Sub {
+				ks = append(ks, u.Kind)
+			}
+			return fmt.Sprintf("cross-over-lazy-operand(%s)/%s", strings.Join(ks, "."), symptom)
+		}
+		if c6IsSelf(s.Kind) {
+			return fmt.Sprintf("%s/%s", s.Kind, symptom)
+		}
+	}
 	return fmt.Sprintf("no-closure-pair/term=%s/%s", c.Term.Kind, symptom)
 }
 
@@ -1210,7 +1331,28 @@ func cmdC06(seed int64, tier, outDir string) {
 			if s.Kind == "map" || s.Kind == "accept" {
 				sum.Count("cost_profile", s.Cost)
 			}
+			if s.Kind == "cross" || s.Kind == "merge" || s.Kind == "concat" {
+				if len(s.Sub) == 0 {
+					sum.Count("other_operand", s.Kind+": numbers(n)[.number]")
+				} else {
+					sum.Count("other_operand", fmt.Sprintf("%s: lazy pipeline of %d stages", s.Kind, len(s.Sub)))
+				}
+			}
+			if s.Kind == "cross" && len(s.Sub) > 0 && len(c.Stages) > 0 {
+				sum.Count("reiteration", "cross re-iterates a lazy second list")
+			}
+			if c6IsSelf(s.Kind) {
+				sum.Count("reiteration", s.Kind)
+			}
 		}
+		if c.Term.Kind == "twice" {
+			sum.Count("reiteration", "twice: [m.sum(), m.mapReduce(..), m.size()]")
+		}
+		c6Walk(c.Stages, func(s *C6Stage, d int) {
+			if d > 0 {
+				sum.Count("operand_stage_kinds", s.Kind)
+			}
+		})
 		if !refOK {
 			sum.Count("outcome", "fails")
 		} else {
@@ -1250,7 +1392,8 @@ func cmdC06(seed int64, tier, outDir string) {
 			sum.Count("gomaxprocs", fmt.Sprint(run.procs))
 			switched := map[int]bool{}
 			anySwitch, merges, otherCalls := false, false, 0
-			for _, s := range append(append([]C6Stage{}, c.Stages...), c.Term) {
+			c6Walk(append(append([]C6Stage{}, c.Stages...), c.Term), func(sp *C6Stage, _ int) {
+				s := *sp
 				if s.Kind == "map" || s.Kind == "accept" {
 					if res.Gids[s.ID] >= 2 {
 						switched[s.ID] = true
@@ -1263,10 +1406,10 @@ func cmdC06(seed int64, tier, outDir string) {
 					switched[s.ID2] = true
 					anySwitch = true
 				}
-				if s.Kind == "merge" {
+				if s.Kind == "merge" || s.Kind == "mergeSelf" {
 					merges = true
 				}
-			}
+			})
 			if anySwitch {
 				sum.Count("parallel_switch", "observed")
 			} else {
